@@ -14,6 +14,9 @@
 //!   H <reg> <idx>               keep a clone of images()[idx] of a subscription
 //!   UH <j>                      drop the j-th kept clone
 //!   X <now>                     Agent::on_close
+//!   ST                          the driver stalls: the harness fills the to-driver ring with keep-alive commands until it refuses
+//!                               even the smallest one; nothing is drained until DR
+//!   DR                          the driver consumes the whole ring
 //! observation per op:
 //!   OStep <result> [(kind, reg, corr, closed); ..callbacks of this op..] [(reg, [(corr, closed); ..]); ..held subscriptions..]
 //!         [..file ids mapped according to /proc/self/maps..] [..is_closed of kept clones..]
@@ -123,6 +126,7 @@ fn api_err(e: &AeronError) -> String {
         AeronError::Generic(GenericError::ClientConductorClosed) => "Closed".into(),
         AeronError::DriverTimeout(_) => "DriverInactive".into(),
         AeronError::PublicationNotReady(_) | AeronError::SubscriptionNotReady(_) => "NotReady".into(),
+        AeronError::IllegalState(_) => "IllegalState".into(),
         _ => "OtherErr".into(),
     }
 }
@@ -296,6 +300,28 @@ fn run_case(line: &str) -> String {
                     conductor.lock().map_err(|_| ()).expect("poisoned").on_close().expect("on_close");
                 })
                 .map(|_| "(Ok (0))".to_string())
+            },
+            "ST" => {
+                let src = AtomicBuffer::from_aligned(&w.c.scratch);
+                for len in [4096, 1024, 256, 64, 16, 8, 1] {
+                    let mut guard = 0;
+                    while w.c.ring.write(aeron_rs::command::control_protocol_events::AeronCommand::ClientKeepAlive, src, 0, len).is_ok() {
+                        guard += 1;
+                        assert!(guard < 100_000);
+                    }
+                }
+                Ok("(Ok (0))".to_string())
+            },
+            "DR" => {
+                // one read stops at the end of the buffer (the wrap point) and a pass may consume only a padding record:
+                // read until the ring is empty
+                let mut guard = 0;
+                while w.c.ring.size() > 0 {
+                    w.c.ring.read_all(|_t, _b| {});
+                    guard += 1;
+                    assert!(guard < 1000);
+                }
+                Ok("(Ok (0))".to_string())
             },
             other => panic!("unknown case kind {}", other),
         };
